@@ -6,13 +6,13 @@ toolchain go1.23.11
 
 require (
 	github.com/danos/mgmterror v0.0.0-20210701125710-6fcf751e367d
+	github.com/danos/utils v0.0.0-20210701125856-7935e3348d7c
 	github.com/sdcio/sdc-protos v0.0.46
 	github.com/sdcio/yang-parser v0.0.0
 )
 
 require (
 	github.com/danos/encoding v0.0.0-20210701125528-66857fd8c8ea // indirect
-	github.com/danos/utils v0.0.0-20210701125856-7935e3348d7c // indirect
 	github.com/sirupsen/logrus v1.9.3 // indirect
 	golang.org/x/net v0.41.0 // indirect
 	golang.org/x/sys v0.33.0 // indirect
